@@ -298,6 +298,25 @@ def sorted_reversed_stability(c):
     return hits(c["a"]) > hits(c["b"])
 
 
+def reversed_of_reversed(c):
+    def hits(t):
+        return sum(1 for n in _walk(t, ast.Call) if isinstance(n.func, ast.Name) and n.func.id == "reversed" and n.args
+                   and isinstance(n.args[0], ast.Call) and isinstance(n.args[0].func, ast.Name) and n.args[0].func.id == "reversed")
+    return hits(c["b"]) > hits(c["a"])
+
+
+def constrained_range_rewritten(c):
+    """a comprehension over range(...) with an `if` on the loop variable had its range arguments rewritten"""
+    def ranges(t):
+        out = []
+        for comp in _walk(t, ast.comprehension):
+            if isinstance(comp.iter, ast.Call) and isinstance(comp.iter.func, ast.Name) and comp.iter.func.id == "range":
+                out.append(ast.dump(comp.iter))
+        return sorted(out)
+    had_if = any(comp.ifs for comp in _walk(c["a"], ast.comprehension))
+    return had_if and ranges(c["a"]) != ranges(c["b"])
+
+
 def sorted_subscript_ties(c):
     """sorted(xs, key=...)[i] / [i:] -> min/max/heapq with a key: ties are resolved differently"""
     def hits(text):
